@@ -3,6 +3,7 @@ import BadgerModel.Drop
 import BadgerModel.Picker
 import BadgerModel.IterPick
 import BadgerModel.Reopen
+import BadgerModel.Namespace
 import BadgerModel.Driver.Util
 /-! `mvcc` engine: the whole-database model driven by one op per line (see harness/eng_mvcc.go). -/
 namespace Badger.Driver
@@ -58,7 +59,8 @@ def mvccStep (d : Db) (line : String) : Db × String :=
       managed := argBool kv "managed", numKeep := argNat kv "keep" 1, threshold := argNat kv "thr" 1024,
       inMemory := argBool kv "inmem", detectConflicts := argNat kv "detect" 1 != 0,
       vlogFileSize := argNat kv "vlogsz" (1 <<< 30), maxBatchCount := argNat kv "maxcount" 0,
-      maxBatchSize := argNat kv "maxsize" 0, maxLevels := argNat kv "levels" 7 }
+      maxBatchSize := argNat kv "maxsize" 0, maxLevels := argNat kv "levels" 7,
+      nsOffset := if argStr kv "nsoff" == "" then none else (argStr kv "nsoff").toNat? }
     (Db.init o (argNat kv "now" 0), "ok")
   | ["now", t] => ({ d with now := t.toNat?.getD d.now }, "ok")
   | ["begin", id, upd, rts] =>
@@ -70,13 +72,13 @@ def mvccStep (d : Db) (line : String) : Db × String :=
   | ["set", id, k, m, um, exp, v, ver] =>
     match id.toNat?, fromHex k, m.toNat?, um.toNat?, exp.toNat?, fromHex v, ver.toNat? with
     | some id, some k, some m, some um, some exp, some v, some ver =>
-      let (d, r) := d.modify id { key := k, ver, emeta := m, umeta := um, exp, val := v }
+      let (d, r) := d.modifyNs id { key := k, ver, emeta := m, umeta := um, exp, val := v }
       (d, match r with | none => "ok" | some e => e.str)
     | _, _, _, _, _, _, _ => (d, "bad-op")
   | ["get", id, k] =>
     match id.toNat?, fromHex k with
     | some id, some k =>
-      let (d, r) := d.txnGet id k
+      let (d, r) := d.txnGetNs id k
       (d, match r with
         | .found e ver => "found " ++ fmtItem d.now e ver
         | .notfound => "notfound"
@@ -128,7 +130,7 @@ def mvccStep (d : Db) (line : String) : Db × String :=
       let seek : Option Bytes := if seekS == "rewind" then none else fromHex seekS
       -- the iterator over the tables the code picks (pickTable / pickTables); the bloom answer is
       -- not exposed: `false` (no table excluded by the filter) is sound for forward key iterators
-      match d.iteratePicked id o seek (fun _ => false), d.findTxn id with
+      match d.iteratePickedNs id o seek (fun _ => false), d.findTxn id with
       | some items, some t =>
         -- `Seek(key)` and every `Item()` call record a read (conflict detection)
         let newReads := (match seek with | some k => if k.isEmpty then [] else [k] | none => []) ++ items.map (·.key)
@@ -209,8 +211,15 @@ def mvccStep (d : Db) (line : String) : Db × String :=
   -- Close (its memtable flush arrives as a separate `flush` line before this one) + Open
   | "reopen" :: _ =>
     if d.opts.inMemory then (d, "err:inmem") else
-    let d := d.closeOpen
+    let d := d.closeOpen.reloadBanned
     (d, s!"ok next={d.nextTs}")
+  -- `DB.BanNamespace(ns)`
+  | ["ban", ns] =>
+    match ns.toNat? with
+    | some ns => match d.banNamespace ns with
+      | some d => (d, "ok")
+      | none => (d, "err:nsmode")
+    | none => (d, "bad-op")
   | ["dump"] => (d, fmtDump d.lsm)
   | ["discardts"] => (d, toString d.discardAtOrBelow)
   | _ => (d, "bad-op")
